@@ -184,11 +184,7 @@ Section Flat.
   Qed.
 
   (* a block comment body: no `*/` inside *)
-  Fixpoint star_slash (v : list char) : bool :=
-    match v with
-    | a :: ((b :: _) as r) => ((a =? 42) && (b =? 47)) || star_slash r
-    | _ => false
-    end.
+  Notation star_slash := has_star_slash.
   Lemma ml_loop_body : forall body fuel acc st r',
     star_slash body = false -> At st (body ++ 42 :: 47 :: r') -> Nat.lt (length (body ++ 42 :: 47 :: r')) fuel ->
     exists st', ml_loop d fuel acc st = (Ok (Some (acc ++ body)), st') /\ At st' r'.
